@@ -128,6 +128,14 @@ def run(chk):
             b.add(f"nearest_neighbor2|same-object-{cname}", lambda c=cont, k=k: nn.nearest_neighbor(c, max_edits=k, seqs2=c), None, sop, meta)
             b.add(f"SymdelDB.lookup|same-object-{cname}", lambda c=cont, k=k: nn.SymdelDB(c, k).lookup(c), None, sop, meta)
             b.add(f"LookupDB.lookup|same-object-{cname}", lambda c=cont, k=k: nn.LookupDB(c).lookup(c, max_edits=k), None, sop, meta)
+    # many queries in ONE lookup (> 512, > 1024): every hit carries the position of its query in the whole query list
+    for nq in ((600, 1100) if not thorough else (513, 600, 1100, 2100, 4200)):
+        ref = gen.repertoire(rng, 25, minlen=5, maxlen=8, allow_empty=False)
+        qs = [gen.mutate(rng, rng.choice(ref), AA, rng.randint(0, 2)) or "C" for _ in range(nq)]
+        qs[nq - 1] = ref[0]
+        qs[520] = ref[0]                 # duplicates on both sides of a block boundary
+        qs[8] = ref[0]
+        add_symdel(f"many-queries-{nq}", ref, qs, rng.choice([1, 2]), model=False)
     # all strings of a pool against themselves
     for alpha, pool in pools:
         add_symdel(f"E({alpha})-all", list(pool), list(pool), 2, model=len(pool) <= 45)
